@@ -759,6 +759,13 @@ pending_unix_fds_timeout_cb (void *data)
   return TRUE;
 }
 
+#ifdef DBUS_VERIF_SIM
+/* Verification hook (off by default), see bus/dispatch.c */
+extern void (*_bus_verif_probe) (const char     *what,
+                                 DBusConnection *connection,
+                                 DBusMessage    *message);
+#endif
+
 dbus_bool_t
 bus_connections_setup_connection (BusConnections *connections,
                                   DBusConnection *connection)
@@ -766,6 +773,11 @@ bus_connections_setup_connection (BusConnections *connections,
 
   BusConnectionData *d = NULL;
   DBusError error;
+
+#ifdef DBUS_VERIF_SIM
+  if (_bus_verif_probe != NULL)
+    _bus_verif_probe ("setup", connection, NULL);
+#endif
 
   d = dbus_new0 (BusConnectionData, 1);
   
